@@ -315,6 +315,7 @@ func lookup(instr *ssa.Lookup, x, idx value) value {
 	if isSym(idx) {
 		panic(engineError{"symbolic map key in lookup"})
 	}
+	lsMapAccess(x, false)
 	switch x := x.(type) { // map or string
 	case map[value]value, *hashmap:
 		var v value
@@ -995,6 +996,7 @@ func callBuiltin(caller *frame, callpos token.Pos, fn *ssa.Builtin, args []value
 		return nil
 
 	case "delete": // delete(map[K]value, K)
+		lsMapAccess(args[0], true)
 		switch m := args[0].(type) {
 		case map[value]value:
 			delete(m, args[1])
@@ -1115,6 +1117,7 @@ func callBuiltin(caller *frame, callpos token.Pos, fn *ssa.Builtin, args []value
 }
 
 func rangeIter(x value, t types.Type) iter {
+	lsMapAccess(x, false)
 	switch x := x.(type) {
 	case map[value]value:
 		return newSortedMapIter(x)
